@@ -6,18 +6,25 @@ Recognised (anything else raises - fail-closed):
   _setup_kernel   vox_center = <expr over self.bshape>        -> src_centre n
                   self.shape = (<expr over bshape, kernel.shape>).astype(np.intp)
                                                               -> src_buflen n k
+                  self._kcenter = np.unravel_index(np.argmax(kernel), kernel.shape)  (literal)
   smooth          slicer = tuple(slice(<start>, <stop>) for i in range(len(self.bshape)))
-                                                              -> src_win_start k, src_win_stop n k
+                  over self.bshape[i], self._kernel.shape[i], self._kcenter[i]
+                                                              -> src_win_start n k w, src_win_stop n k w
                   `if self.scale != 1: data = self.scale * data` then
                   `if self.location != 0.0: data += self.location`   (order and guards)
                                                               -> src_scale_then_location
   __call__        _normsq = self._normsq(X, axis) / <h>; t = np.less_equal(_normsq, <c>);
                   return np.exp(-np.minimum(_normsq, <c>)) * t -> src_half, src_cut
-  _normsq         `if self.fwhm != <g>:` guard around `_X[i] /= f[i]`, f = fwhm2sigma(self.fwhm)
-                                                              -> src_fwhm_guard
+  _normsq         f = fwhm2sigma(self.fwhm) and `_X[i] /= f[i]` at the top level of the function:
+                  NO guard on self.fwhm (an `if` mentioning self.fwhm raises)
+                                                              -> src_sigma_always_applied
   _crop           default tol                                  -> src_tol
   fwhm2sigma      fwhm / np.sqrt(<a> * np.log(<b>))            -> src_f2s_a, src_f2s_b
   sigma2fwhm      sigma * np.sqrt(<a> * np.log(<b>))           -> src_s2f_a, src_s2f_b
+
+  nipy/algorithms/fwhm.py, class Resels: the return expressions of resel2fwhm and fwhm2resel
+  over np.sqrt, np.log, *, /, self.wedge, pos_recipr, np.power(., 1./self.D) (-> root) and
+  np.power(., self.D) (-> ^ D)                                -> src_resel2fwhm, src_fwhm2resel (over R)
 
 Expressions are translated with types: integers stay in Z, `/` goes to Q,
 np.floor/np.ceil come back to Z (Qfloor/Qceiling), `//` is Z.div.
@@ -105,6 +112,34 @@ def tr(n, env):
     raise Unsupported("expression " + ast.dump(n)[:80])
 
 
+def tr_real(n, var):
+    """expression of fwhm.py over the reals"""
+    if isinstance(n, ast.Name) and n.id == var:
+        return "v"
+    if _attr_chain(n) == "self.wedge":
+        return "wedge"
+    if isinstance(n, ast.Constant) and isinstance(n.value, (int, float)) and not isinstance(n.value, bool) and float(n.value).is_integer():
+        return "(IZR (%d))" % int(n.value)
+    if isinstance(n, ast.BinOp) and isinstance(n.op, (ast.Mult, ast.Div)):
+        return "(%s %s %s)" % ("Rmult" if isinstance(n.op, ast.Mult) else "Rdiv", tr_real(n.left, var), tr_real(n.right, var))
+    if isinstance(n, ast.Call) and not n.keywords:
+        ch = _attr_chain(n.func)
+        if ch == "np.sqrt" and len(n.args) == 1:
+            return "(sqrt %s)" % tr_real(n.args[0], var)
+        if ch == "np.log" and len(n.args) == 1:
+            return "(ln %s)" % tr_real(n.args[0], var)
+        if ch == "pos_recipr" and len(n.args) == 1:
+            return "(pos_recipr %s)" % tr_real(n.args[0], var)
+        if ch == "np.power" and len(n.args) == 2:
+            e = ast.unparse(n.args[1])
+            if e == "self.D":
+                return "(pow %s D)" % tr_real(n.args[0], var)
+            if e in ("1.0 / self.D", "1 / self.D"):
+                return "(root %s)" % tr_real(n.args[0], var)
+            raise Unsupported("np.power exponent " + e)
+    raise Unsupported("real expression " + ast.unparse(n)[:80])
+
+
 def toq(s, t):
     return s if t == "Q" else "(inject_Z %s)" % s
 
@@ -178,7 +213,7 @@ def translate(repo):
            "From Coq Require Import ZArith QArith Qround.", "Open Scope Z_scope.", ""]
     # ---- _setup_kernel
     sk = _func(tree, "_setup_kernel", "LinearFilter")
-    env = {"self.bshape": "n", "kernel.shape": "k", "self._kernel.shape": "k"}
+    env = {"self.bshape": "n", "kernel.shape": "k", "self._kernel.shape": "k", "self._kcenter": "w"}
     s, t = tr(_assign_to(sk, "vox_center"), env)
     if t != "Z":
         raise Unsupported("vox_center is not integral")
@@ -195,6 +230,14 @@ def translate(repo):
     sl = _assign_to(ps, "slices")
     if ast.unparse(sl) != "[slice(0, self.bshape[i], 1) for i in range(len(self.shape))]":
         raise Unsupported("data placement: " + ast.unparse(sl))
+    kc = _assign_to(sk, "self._kcenter")
+    if ast.unparse(kc) != "np.unravel_index(np.argmax(kernel), kernel.shape)":
+        raise Unsupported("_kcenter: " + ast.unparse(kc))
+    # ... computed from the cropped kernel: after `kernel = _crop(kernel)`
+    crop_line = [n.lineno for n in ast.walk(sk) if isinstance(n, ast.Assign) and ast.unparse(n) == "kernel = _crop(kernel)"]
+    kc_line = [n.lineno for n in ast.walk(sk) if isinstance(n, ast.Assign) and ast.unparse(n.targets[0]) == "self._kcenter"]
+    if len(crop_line) != 1 or kc_line[0] < crop_line[0]:
+        raise Unsupported("_kcenter must be taken from the cropped kernel")
     out.append("Definition src_kernel_origin : Z := 0.")
     out.append("Definition src_data_origin : Z := 0.")
     # ---- smooth: window
@@ -214,8 +257,8 @@ def translate(repo):
     s1, t1 = tr(c.args[1], env)
     if t0 != "Z" or t1 != "Z":
         raise Unsupported("window bounds not integral")
-    out.append("Definition src_win_start (n k : Z) : Z := %s." % s0)
-    out.append("Definition src_win_stop (n k : Z) : Z := %s." % s1)
+    out.append("Definition src_win_start (n k w : Z) : Z := %s." % s0)
+    out.append("Definition src_win_stop (n k w : Z) : Z := %s." % s1)
     # normalisation
     norm = None
     for n in ast.walk(sm):
@@ -246,16 +289,18 @@ def translate(repo):
         raise Unsupported("kernel value form: " + ast.unparse(ret[0].value))
     out.append("Definition src_half : Q := %s." % _qlit(half))
     out.append("Definition src_cut : Q := %s." % _qlit(cutv))
-    # ---- _normsq guard
+    # ---- _normsq: the division by fwhm2sigma(fwhm) is unconditional
     ns = _func(tree, "_normsq", "LinearFilter")
-    g = [n for n in ns.body if isinstance(n, ast.If) and ast.unparse(n.test).startswith("self.fwhm !=")]
-    if len(g) != 1 or not isinstance(g[0].test, ast.Compare) or g[0].orelse:
-        raise Unsupported("fwhm guard")
-    gv = _num(g[0].test.comparators[0])
-    body = " ; ".join(ast.unparse(b) for b in g[0].body)
-    if "f = fwhm2sigma(self.fwhm)" not in body or "_X[i] /= f[i]" not in body:
-        raise Unsupported("fwhm scaling body: " + body)
-    out.append("Definition src_fwhm_guard : Q := %s." % _qlit(gv))
+    for n in ast.walk(ns):
+        if isinstance(n, (ast.If, ast.IfExp)) and "self.fwhm" in ast.unparse(n.test):
+            raise Unsupported("guard on self.fwhm in _normsq: " + ast.unparse(n.test))
+    top = [ast.unparse(b) for b in ns.body]
+    if "f = fwhm2sigma(self.fwhm)" not in top:
+        raise Unsupported("f = fwhm2sigma(self.fwhm) not at the top level of _normsq")
+    loops = [b for b in ns.body if isinstance(b, ast.For) and ast.unparse(b.iter) == "range(len(self.bshape))"]
+    if len(loops) != 1 or [ast.unparse(b) for b in loops[0].body] != ["_X[i] /= f[i]"]:
+        raise Unsupported("scaling loop `_X[i] /= f[i]`")
+    out.append("Definition src_sigma_always_applied : bool := true.")
     d2 = _assign_to(ns, "D2")
     if ast.unparse(d2) != "np.sum(_X ** 2, axis=0)":
         raise Unsupported("D2: " + ast.unparse(d2))
@@ -276,5 +321,16 @@ def translate(repo):
             raise Unsupported("%s: operator %s" % (name, op))
         out.append("Definition src_%s_a : Z := %d." % (pre, a))
         out.append("Definition src_%s_b : Z := %d." % (pre, b))
+    # ---- fwhm.py: Resels conversions
+    ftree = ast.parse((repo / "nipy/algorithms/fwhm.py").read_text())
+    out.append("")
+    out.append("From Coq Require Import Reals.")
+    for name, var in (("resel2fwhm", "resels"), ("fwhm2resel", "fwhm")):
+        fn = _func(ftree, name, "Resels")
+        ret = [n for n in fn.body if isinstance(n, ast.Return)]
+        if len(ret) != 1 or [a.arg for a in fn.args.args] != ["self", var]:
+            raise Unsupported("Resels." + name)
+        out.append("Definition src_%s (pos_recipr root : R -> R) (D : nat) (wedge v : R) : R := %s%%R." % (name, tr_real(ret[0].value, var)))
+    meta["sources"] = [SRC, "nipy/algorithms/fwhm.py"]
     meta["definitions"] = sum(1 for l in out if l.startswith("Definition"))
     return "\n".join(out) + "\n", meta
